@@ -75,6 +75,7 @@ type DS struct {
 	mu        sync.Mutex
 	reqOps    map[string]int
 	openSigs  map[string]int
+	changesReads []ChangesRead
 	OpenIters atomic.Int64
 	Opened    atomic.Int64
 	Stopped   atomic.Int64
@@ -456,11 +457,30 @@ func (d *DS) Write(ctx context.Context, store string, del storage.Deletes, w sto
 }
 
 func (d *DS) ReadChanges(ctx context.Context, store string, f storage.ReadChangesFilter, o storage.ReadChangesOptions) ([]*openfgav1.TupleChange, string, error) {
-	_, err := d.enter(ctx, "ReadChanges", store, fmt.Sprintf("%s|%d|%v|%d", f.ObjectType, o.Pagination.PageSize, o.SortDesc, len(o.Pagination.From)), false)
+	entered := d.run.Elapsed()
+	info, err := d.enter(ctx, "ReadChanges", store, fmt.Sprintf("%s|%d|%v|%d", f.ObjectType, o.Pagination.PageSize, o.SortDesc, len(o.Pagination.From)), false)
 	if err != nil {
 		return nil, "", err
 	}
-	return d.OpenFGADatastore.ReadChanges(ctx, store, f, o)
+	ch, tok, err := d.OpenFGADatastore.ReadChanges(ctx, store, f, o)
+	d.mu.Lock()
+	d.changesReads = append(d.changesReads, ChangesRead{Req: info.Req, Store: info.Store, Entered: entered, Done: d.run.Elapsed(), Desc: o.SortDesc})
+	d.mu.Unlock()
+	return ch, tok, err
+}
+
+// ChangesRead records one completed ReadChanges call (virtual instants relative to the run's start).
+type ChangesRead struct {
+	Req, Store    string
+	Entered, Done time.Duration
+	Desc          bool
+}
+
+// ChangesReads returns the completed ReadChanges calls so far.
+func (d *DS) ChangesReads() []ChangesRead {
+	d.mu.Lock()
+	defer d.mu.Unlock()
+	return append([]ChangesRead(nil), d.changesReads...)
 }
 
 // ---------------------------------------------------------------- models / stores / assertions
